@@ -18,7 +18,9 @@
 
   as repaired by repo_patches/fix-references-rename.diff (primary journal labelled with its own
   path; commodities of costs, assertions and price directives searched; name ranges derived from
-  the name; cursor accepted on directives) and by repo_patches/fix-utf16-positions.diff (the rune
+  the name; cursor accepted on directives), by repo_patches/fix-quoted-commodity-directive.diff
+  (the commodity of a `commodity` / `P` directive is located by the range the parser recorded,
+  when it recorded an End) and by repo_patches/fix-utf16-positions.diff (the rune
   columns of the trees are converted to UTF-16 characters with the lines of each file's text, the
   cursor to a rune column; name lengths count runes).  The lexer, parser and include loader are
   NOT modelled here: the input is the resolved structure with real syntax trees, plus the text
@@ -110,7 +112,12 @@ def nameRange (start : Pos) (name : Bytes) : ARange :=
   ⟨start.line, start.col, start.line, start.col + runeLen name⟩
 
 def accountNameRange (a : Account) : ARange := nameRange a.range.start a.name
-def directiveCommodityRange (c : Commodity) : ARange := nameRange c.range.start c.symbol
+/-- `directiveCommodityRange` (repo_patches/fix-quoted-commodity-directive.diff): the range the
+    parser recorded for the commodity of a `commodity` / `P` directive when it has an End (the
+    token's extent: a quoted symbol with its quotes, like a commodity written in a posting),
+    otherwise derived from the symbol. -/
+def directiveCommodityRange (c : Commodity) : ARange :=
+  if c.range.stop != Pos.zero then ARange.ofRng c.range else nameRange c.range.start c.symbol
 
 /-- `getPayeeOrDescription`. -/
 def payeeOrDescription (tx : Transaction) : Bytes :=
